@@ -1,6 +1,9 @@
 package main
 
 import (
+	"hash/adler32"
+	"hash/crc32"
+	"hash/fnv"
 	"bytes"
 	"fmt"
 	"reflect"
@@ -873,8 +876,144 @@ func c01StatScenario(dotu bool) Scenario {
 	}}
 }
 
+// collidingNames returns, for each of the 32-bit hashes of the standard library, two
+// different names of equal length with the same hash (found by search; a few tens of
+// thousands of candidates suffice for 32 bits).
+func collidingNames() [][2]string {
+	hashes := []func([]byte) uint32{
+		func(b []byte) uint32 { h := fnv.New32a(); h.Write(b); return h.Sum32() },
+		func(b []byte) uint32 { h := fnv.New32(); h.Write(b); return h.Sum32() },
+		crc32.ChecksumIEEE,
+		func(b []byte) uint32 { return crc32.Checksum(b, crc32.MakeTable(crc32.Castagnoli)) },
+		adler32.Checksum,
+		func(b []byte) uint32 { h := fnv.New64a(); h.Write(b); return uint32(h.Sum64()) },
+		func(b []byte) uint32 { h := fnv.New64a(); h.Write(b); v := h.Sum64(); return uint32(v ^ v>>32) },
+	}
+	var out [][2]string
+	for _, hf := range hashes {
+		seen := map[uint32]string{}
+		buf := []byte("aaaaaaaa")
+		x := uint64(88172645463325252)
+		for i := 0; i < 1000000; i++ {
+			// (a fixed pseudo-random walk through the 8-letter names: neighbouring names rarely collide)
+			for k := range buf {
+				x ^= x << 13
+				x ^= x >> 7
+				x ^= x << 17
+				buf[k] = byte('a' + (x>>20)%26)
+			}
+			h := hf(buf)
+			if prev, ok := seen[h]; ok {
+				out = append(out, [2]string{prev, string(buf)})
+				break
+			}
+			seen[h] = string(buf)
+		}
+	}
+	return out
+}
+
+// c01HistoryScenario: decoding does not depend on what was decoded before. Sequences of
+// two and three stat records (on their own, in Rstat, in Twstat) and of messages with
+// strings, in one process, where a later record shares something with an earlier one:
+// the same numeric ids under other names, the same names under other ids, names of the
+// same length with the same 32-bit hash.
+func c01HistoryScenario(dotu bool) Scenario {
+	name := fmt.Sprintf("decodes one after the other, later ones resembling earlier ones dotu=%v", dotu)
+	return Scenario{Name: name, Run: func(rc *RunCtx) *Result {
+		res := &Result{Exhaustive: true}
+		seen := map[string]bool{}
+		fail := func(sig, msg string) {
+			if !seen[sig] && len(res.Findings) < 8 {
+				seen[sig] = true
+				res.Findings = append(res.Findings, Finding{Sig: "C01/history/" + sig, Msg: msg})
+			}
+		}
+		base := wire.Stat{Type: 1, Dev: 2, Qid: wire.Qid{Type: 0, Vers: 3, Path: 4}, Mode: 0644, Atime: 5, Mtime: 6, Length: 7, Name: "file", Uid: "alice", Gid: "staff", Muid: "bob", Ext: "", NUid: 1000, NGid: 100, NMuid: 1001}
+		decodeAll := func(st wire.Stat, what string) {
+			res.Evals++
+			b := wire.EncodeStat(&st, dotu)
+			if d, _, _, err := go9p.UnpackDir(b, dotu); err != nil {
+				fail("unpackdir-error", what+": UnpackDir: "+err.Error())
+			} else if diff := cmpDir(&st, d, dotu, false); diff != "" {
+				fail("unpackdir/"+sigWords(diff), what+": UnpackDir of a stat record differs from its bytes: "+diff)
+			}
+			for _, t := range []uint8{wire.Rstat, wire.Twstat} {
+				m := &wire.Msg{Type: t, Tag: 9, Fid: 3, Stat: st}
+				fc, _, err := go9p.Unpack(wire.Encode(m, dotu), dotu)
+				if err != nil {
+					fail("unpack-error", what+": Unpack: "+err.Error())
+				} else if diff := cmpDir(&st, &fc.Dir, dotu, false); diff != "" {
+					fail("unpack/"+sigWords(diff), what+": Unpack of "+wire.Names[t]+" differs from its bytes: "+diff)
+				}
+			}
+		}
+		pairs := collidingNames()
+		pairs = append(pairs, [2]string{"alice", "carol"}, [2]string{"a", "b"}, [2]string{"", "x"}, [2]string{"alice", "alicf"})
+		for _, pr := range pairs {
+			for _, order := range [][2]string{{pr[0], pr[1]}, {pr[1], pr[0]}} {
+				for field := 0; field < 5; field++ {
+					for _, sameIds := range []bool{true, false} {
+						var seq []wire.Stat
+						for k, nm := range []string{order[0], order[1], order[0]} {
+							st := base
+							switch field {
+							case 0:
+								st.Uid = nm
+							case 1:
+								st.Gid = nm
+							case 2:
+								st.Muid = nm
+							case 3:
+								st.Name = nm
+							case 4:
+								st.Ext = nm
+							}
+							if !sameIds {
+								st.NUid, st.NGid, st.NMuid = uint32(2000+k), uint32(3000+k), uint32(4000+k)
+							}
+							seq = append(seq, st)
+						}
+						for k, st := range seq {
+							decodeAll(st, fmt.Sprintf("record %d of a sequence whose field %d is %q, %q, %q (same numeric ids: %v)", k, field, order[0], order[1], order[0], sameIds))
+						}
+					}
+				}
+				// the same name under another id, the same id under another name
+				a, b := base, base
+				a.Uid, b.Uid = order[0], order[0]
+				b.NUid = 77
+				decodeAll(a, "same owner name, first id")
+				decodeAll(b, "same owner name, second id")
+				// strings of other messages
+				for _, ms := range [][2]*wire.Msg{
+					{{Type: wire.Tversion, Tag: 0xFFFF, Msize: 8192, Version: order[0]}, {Type: wire.Tversion, Tag: 0xFFFF, Msize: 8192, Version: order[1]}},
+					{{Type: wire.Rerror, Tag: 1, Ename: order[0], Errno: 5}, {Type: wire.Rerror, Tag: 1, Ename: order[1], Errno: 5}},
+					{twalk(1, 2, 3, order[0], order[1]), twalk(1, 2, 3, order[1], order[0])},
+					{tattach(1, 2, wire.NOFID, order[0], 7, dotu), tattach(1, 2, wire.NOFID, order[1], 7, dotu)},
+					{{Type: wire.Tcreate, Tag: 1, Fid: 2, Name: order[0], Perm: 0644, Mode: 1, Ext: order[1]}, {Type: wire.Tcreate, Tag: 1, Fid: 2, Name: order[1], Perm: 0644, Mode: 1, Ext: order[0]}},
+				} {
+					for _, m := range ms {
+						res.Evals++
+						fc, _, err := go9p.Unpack(wire.Encode(m, dotu), dotu)
+						if err != nil {
+							fail("unpack-error", "Unpack of "+m.String()+": "+err.Error())
+						} else if diff := cmpFcall(m, fc, dotu); diff != "" {
+							fail("unpack-msg/"+sigWords(diff), "Unpack of "+m.String()+" after a similar message differs from its bytes: "+diff)
+						}
+					}
+				}
+			}
+		}
+		res.Nontrivial = res.Evals
+		res.Samples = append(res.Samples, fmt.Sprintf("%d name pairs (of which %d collide under a 32-bit hash of the standard library): %v", len(pairs), len(pairs)-4, pairs))
+		return res
+	}}
+}
+
 func c01Scenarios(tier string) []Scenario {
 	var out []Scenario
+	out = append(out, c01HistoryScenario(false), c01HistoryScenario(true))
 	for _, g := range c01Gens() {
 		for _, dotu := range []bool{false, true} {
 			out = append(out, c01Scenario(g, dotu))
